@@ -8,7 +8,7 @@ func init() {
 	vHarnesses["VerifC18Canary"] = VerifC18Canary
 }
 
-var vC18Keys = [...]string{"0", "10", "a/b", "m~n", "k"}
+var vC18Keys = [...]string{"0", "a~1b", "a/b", "10", "m~n", "k"}
 
 func vC18KeyObj(nkeys int) jsonObject {
 	o := jsonObject{}
